@@ -13,6 +13,7 @@ REQUIRED = [
     "get_no_gap", "replica_rows_accounted", "get_mirrored_order_unsafe", "poll_idempotent_on_duplicates",
     "replica_converges_partial", "replica_converges_same_seed", "replica_converges_full_false", "id_reuse_diverges",
     "reset_restarts", "seed_change_partial_response_unsafe", "search_sound",
+    "register_accepts_iff", "register_never_panics", "poll_never_fails",
     "fact_get_reads_timestamp_first", "fact_check_order", "fact_add_deletes_previous", "fact_expiry_comparisons",
     "fact_update_service_shape", "fact_restart_after_wipe",
 ]
@@ -148,7 +149,7 @@ def run(ctx):
         if sig not in known_sig:
             text = "\n".join(ops_txt[hist_start:i + 1]) + "\n"
             fresh = ctx.violation(sig, what + f" (history starting at op {hist_start}, failing op {i}: {impl[i][:300]})",
-                                  sig.split(":", 1)[1] + ".jsonl", text)
+                                  re.sub(r"[^A-Za-z0-9_.-]+", "-", sig.split(":", 1)[1]) + ".jsonl", text)
             known_sig[sig] = not fresh
         if known_sig[sig]:
             oracle_known[sig] += 1
